@@ -124,27 +124,33 @@ def special_c04(tier, seed, th, chk):
     else:
         outdir = os.path.join(chk.BUILD, "static_c04")
         os.makedirs(outdir, exist_ok=True)
-        for kind in ("reject", "accept"):
-            for prog in sorted(glob.glob(os.path.join(chk.VERIF, "static_c04", kind, "*.rs"))):
-                n += 1
-                r = subprocess.run(["rustc", "--edition", "2021", "--crate-type", "bin", "--emit=metadata", "--cfg", "httparse_verif",
-                                    "--extern", "httparse=" + rlibs[-1], "-L", "dependency=" + deps, prog,
-                                    "-o", os.path.join(outdir, os.path.basename(prog) + ".rmeta")],
-                                   capture_output=True, text=True, env=chk.ENV)
-                codes = set(re.findall(r"error\[(E\d+)\]", r.stderr))
-                name = "%s/%s" % (kind, os.path.basename(prog))
-                if kind == "reject":
-                    if r.returncode == 0:
-                        fails.append("FAIL C04 hard | a client program that keeps a field / the headers slice past its buffer or array (or mutates it while live) is ACCEPTED by the compiler | static %s | rustc exit 0" % name)
-                    elif not (codes & BORROW_ERRORS):
-                        fails.append("FAIL C04 model | corpus program is rejected, but not by the borrow checker (API change?) | static %s | %s" % (name, r.stderr[-300:].replace("\n", " ")))
-                    else:
-                        samples.setdefault("static." + kind, "%s -> %s" % (name, sorted(codes)))
+        from concurrent.futures import ThreadPoolExecutor
+        progs = [(kind, prog) for kind in ("reject", "accept") for prog in sorted(glob.glob(os.path.join(chk.VERIF, "static_c04", kind, "*.rs")))]
+
+        def comp(kp):
+            kind, prog = kp
+            return subprocess.run(["rustc", "--edition", "2021", "--crate-type", "bin", "--emit=metadata", "--cfg", "httparse_verif",
+                                   "--extern", "httparse=" + rlibs[-1], "-L", "dependency=" + deps, prog,
+                                   "-o", os.path.join(outdir, kind + "_" + os.path.basename(prog) + ".rmeta")],
+                                  capture_output=True, text=True, env=chk.ENV)
+        with ThreadPoolExecutor(max_workers=chk.NPROC) as ex:
+            results = list(ex.map(comp, progs))
+        for (kind, prog), r in zip(progs, results):
+            n += 1
+            codes = set(re.findall(r"error\[(E\d+)\]", r.stderr))
+            name = "%s/%s" % (kind, os.path.basename(prog))
+            if kind == "reject":
+                if r.returncode == 0:
+                    fails.append("FAIL C04 hard | a client program that keeps a field / the headers slice past its buffer or array (or mutates it while live) is ACCEPTED by the compiler | static %s | rustc exit 0" % name)
+                elif not (codes & BORROW_ERRORS):
+                    fails.append("FAIL C04 model | corpus program is rejected, but not by the borrow checker (API change?) | static %s | %s" % (name, r.stderr[-300:].replace("\n", " ")))
                 else:
-                    if r.returncode != 0:
-                        fails.append("FAIL C04 hard | a usage pattern that must keep compiling is rejected | static %s | %s" % (name, r.stderr[-300:].replace("\n", " ")))
-                    else:
-                        samples.setdefault("static." + kind, name + " -> compiles")
+                    samples.setdefault("static." + kind, "%s -> %s" % (name, sorted(codes)))
+            else:
+                if r.returncode != 0:
+                    fails.append("FAIL C04 hard | a usage pattern that must keep compiling is rejected | static %s | %s" % (name, r.stderr[-300:].replace("\n", " ")))
+                else:
+                    samples.setdefault("static." + kind, name + " -> compiles")
     return [{"family": "static-corpus", "variant": "dev", "n": n, "fails": fails, "nfails": len(fails),
              "stats": {"cases.static_programs": n, "nontrivial.static": n}, "samples": samples, "wall": time.time() - t0, "cached": False}]
 
@@ -168,13 +174,16 @@ def large_stage(tier, seed, th, chk):
         os.makedirs(cdir, exist_ok=True)
         small, factor = (32 * 1024, 8) if tier == "quick" else (128 * 1024, 8)
         out = []
-        for variant in ("dev", "release", "dev-o0"):
+        # dev-nosimd / dev-sse42: the SWAR and the SSE4.2 scanners as *the* scanner (on this AVX2 machine they
+        # otherwise only see the last < 32 bytes of a run), so that work they add shows in the time
+        for variant in ("dev", "release", "dev-o0", "dev-nosimd", "dev-sse42"):
             t0 = time.time()
             binp, err = chk.build_harness(variant)
             if binp is None:
                 out.append({"family": "large(G10)", "variant": variant, "build_failed": True, "log": err, "fails": [], "stats": {}, "samples": {}, "n": 0, "wall": 0})
                 continue
             hung = []
+            caprows = {}
 
             def measure(reps, only=None):
                 try:
@@ -188,6 +197,9 @@ def large_stage(tier, seed, th, chk):
                 rows = {}
                 for l in o.splitlines():
                     t = l.split()
+                    if len(t) == 4 and t[0] == "capcost":
+                        caprows[t[1]] = (int(t[2].split("=")[1]), int(t[3].split("=")[1]))
+                        continue
                     if len(t) < 6 or t[0] != "cost":
                         continue
                     kv = dict(x.split("=", 1) for x in t[3:] if "=" in x)
@@ -222,6 +234,19 @@ def large_stage(tier, seed, th, chk):
                                 worst = min(worst, rr[1]["ns"] / rr[0]["ns"])
                         if worst > 3 * srat:
                             fails.append("FAIL C20 hard | parsing time grows faster than linearly on an adversarial family (x%.1f time for x%.1f bytes, persisted over 4 measurements) | cost %s (hxharness cost %d %d, %s build) | %s" % (worst, srat, fam, small, factor, variant, rs))
+            # the same small message with a 16-slot and a 2^20-slot header array: work must not follow the capacity
+            for entry, (t16, t1m) in sorted(dict(caprows).items()):
+                n += 1
+                samples["capcost." + entry] = "16 slots: %d ns, 2^20 slots: %d ns" % (t16, t1m)
+                if t1m > 50 * t16 + 20000:
+                    worst = t1m
+                    for _ in range(3):
+                        caprows.clear()
+                        measure(9, "capacity")
+                        if entry in caprows:
+                            worst = min(worst, caprows[entry][1])
+                    if worst > 50 * t16 + 20000:
+                        fails.append("FAIL C20 hard | the time of one call follows the capacity of the header array, not the buffer length (%d ns with 16 slots, %d ns with 2^20 slots for the same %s message; persisted over 4 measurements) | cost capacity (hxharness cost %d %d 9 capacity, %s build) | %s" % (t16, worst, entry, small, factor, variant, entry))
             out.append({"family": "large(G10)", "variant": variant, "n": n, "fails": fails, "nfails": len(fails),
                         "stats": {"cases.large": n, "nontrivial.large": n}, "samples": samples, "wall": time.time() - t0, "cached": False})
         json.dump(out, open(res_path, "w"))
